@@ -14,7 +14,9 @@ RULE = ("pairs (x, y) of real VersionedCPV/UnversionedCPV objects and of real at
         "equal-valued respelling of it (1.0/1.00, 01/1, _alpha/_alpha0, _p1/_p01, -r0/-r00/none, -r1/-r01, USE deps "
         "reordered, ! vs !!), (b) an object and a copy differing in exactly one attribute (category, package, version, "
         "revision, operator, blocker, slot, sub-slot, slot operator, repo id, one USE dep, USE default, negate_vers), "
-        "(c) all pairs of a stratified pool, (d) random pairs; plus small lists for sorted()/transitivity.  Every pair is "
+        "(c) all pairs of a stratified pool, (d) random pairs, (e) all pairs of category/package names taken from "
+        "proper-prefix families (dev vs dev-x, dev+, dev.x, dev_x, deva; foo vs foo-bar, foo+ ...: the characters around "
+        "'/' in ASCII) as versioned/unversioned CPVs and atoms; plus small lists for sorted()/transitivity.  Every pair is "
         "judged by the coherence laws only (no reference answer for the comparison itself).  A pair is non-trivial "
         "when the two objects are written differently and are either an equal-valued respelling or differ in exactly "
         "one attribute; distinct = distinct (kind, spelling of x, spelling of y, negate_vers flags).")
@@ -29,7 +31,7 @@ ASSUMPTIONS = [
 SHARDS = {"quick": 4, "thorough": 16}
 TIMEOUT = {"quick": 240, "thorough": 1800}
 MIN_EVALS = 100000
-REQUIRED_COUNTERS = ("pairs:cpv", "pairs:atom", "equal_pairs_written_differently:cpv",
+REQUIRED_COUNTERS = ("pairs:cpv", "pairs:atom", "prefix_family_key_pairs", "equal_pairs_written_differently:cpv",
                      "equal_pairs_written_differently:atom", "sorted_lists_judged", "triples")
 
 OPNAMES = ("eq", "ne", "lt", "le", "gt", "ge")
@@ -298,6 +300,31 @@ def run(ctx):
             break
     else:
         ctx.count("pool_pairs_complete")
+
+    # (e) every quick run: all pairs of category/package names from prefix families (dev vs dev-x / dev+ / dev.x / dev_x /
+    # deva, foo vs foo-bar / foo+ ...), as versioned and unversioned CPVs and as atoms, plus sorted() on each family
+    keys = [(c, p) for c in gen.BOUNDARY_CATS for p in gen.BOUNDARY_PKGS]
+    extra = dict(blocker="", slot=None, subslot=None, slotop=None, repo=None, use=None, negate_vers=False)
+    for idx, (ka, kb) in enumerate(itertools.combinations(keys, 2)):
+        if idx % ctx.nshards != ctx.shard:
+            continue
+        va, vb = (("1.0", ""), ("1.0", "")) if idx % 3 else (("1.0", "1"), ("1.00", ""))
+        fa = {"cat": ka[0], "pkg": ka[1], "ver": va[0], "rev": va[1]}
+        fb = {"cat": kb[0], "pkg": kb[1], "ver": vb[0], "rev": vb[1]}
+        label = "cat-prefix-family" if ka[0] != kb[0] else "pkg-prefix-family"
+        mon.check_pair("cpv", fa, fb, label)
+        mon.check_pair("cpv", dict(fa, ver=None, rev=""), dict(fb, ver=None, rev=""), label)
+        mon.check_pair("atom", dict(fa, op=">=", **extra), dict(fb, op=">=", **extra), label)
+        mon.check_pair("atom", dict(fa, ver=None, rev="", op="", **extra), dict(fb, ver=None, rev="", op="", **extra), label)
+        ctx.count("prefix_family_key_pairs")
+    for k in range(ctx.budget(12, 40)):
+        fam = rng.sample(keys, 6)
+        check_list(ctx, mon, "cpv", [{"cat": c, "pkg": p, "ver": rng.choice(["1.0", "1.00", "2"]), "rev": ""} for c, p in fam])
+        check_list(ctx, mon, "atom", [dict({"cat": c, "pkg": p, "ver": None, "rev": "", "op": ""}, **extra) for c, p in fam])
+    cat_fam = [{"cat": c, "pkg": "foo", "ver": "1.0", "rev": ""} for c in gen.BOUNDARY_CATS[:7]]
+    pkg_fam = [{"cat": "dev", "pkg": p, "ver": "1.0", "rev": ""} for p in gen.BOUNDARY_PKGS]
+    check_list(ctx, mon, "cpv", cat_fam)
+    check_list(ctx, mon, "cpv", pkg_fam)
 
     # (a)+(b)+(d) CPVs
     for k in range(ctx.budget(20000, 200000)):
